@@ -169,6 +169,68 @@ theorem C04_pipeline_upward_needs_leaf :
       (TaLts.translateUpward ⟨[⟨0, [0], 0⟩], [0]⟩ (idxOf (upOrder ⟨[⟨0, [0], 0⟩], [0]⟩))).1.n = false :=
   ⟨TaLts.allOwnRuleB_iff.mp (by decide), TaLts.idxOkB_iff.mp (by decide), by decide, by decide, by decide⟩
 
+/-! ### the property in its own words, for the composition -/
+
+/-- **C04 as one statement about `ComputeSimulation` as coded.**
+Downward: for an explicit (ranked) tree automaton whose states are numbered `0 … n-1`, `n` passed as the number of states,
+the composition returns a relation; it relates `q` to `r` exactly when both are states of `A` and some relation with the
+downward transfer property relates them (the greatest such relation); it is reflexive on the states and transitive.
+Upward: for an automaton without useless states (every occurring state takes part in an accepting run), `n` at least the
+number of states (and `0` if there is none), the same with the upward transfer property (finality respected, identical
+siblings, related parents). -/
+theorem C04_pipeline_statement (A : TA) (n : Nat) :
+    ((∀ q, q ∈ A.states → q < n) → TaLts.Ranked A →
+      ∃ R, computeSimDown A n = some R ∧
+        (∀ q r, (q, r) ∈ R ↔ q ∈ A.states ∧ r ∈ A.states ∧ ∃ S, DownSim A S ∧ S q r) ∧
+        (∀ q, q ∈ A.states → (q, q) ∈ R) ∧ (∀ a b c, (a, b) ∈ R → (b, c) ∈ R → (a, c) ∈ R)) ∧
+    ((∀ q, Occurs A q → UsefulState A q) → A.states.length ≤ n → (A.states = [] → n = 0) →
+      ∃ R, computeSimUp A n = some R ∧
+        (∀ q r, (q, r) ∈ R ↔ q ∈ A.states ∧ r ∈ A.states ∧ ∃ S, IsUpSim A S ∧ S q r) ∧
+        (∀ q, q ∈ A.states → (q, q) ∈ R) ∧ (∀ a b c, (a, b) ∈ R → (b, c) ∈ R → (a, c) ∈ R)) := by
+  constructor
+  · intro hn hrk
+    have hn' := length_states_le_of_lt A n hn
+    obtain ⟨R, hR, _, hg⟩ := C04_pipeline_downward A n hn' hrk
+    obtain ⟨h1, h2, _⟩ := C04_pipeline_preorder_and_independence A n n hn' hn' hrk R R hR hR
+    exact ⟨R, hR, hg, h1, h2⟩
+  · intro hu hn hne
+    have hprod : ∀ q, q ∈ A.states → Productive A q :=
+      fun q hq => (UsefulAux.usefulState_good (hu q (SimModel.mem_states_iff_occurs.mp hq))).1
+    have hleaf : LeafOk A n := by
+      rcases leafOk_of_productive hprod with h | h
+      · exact Or.inl (hne (List.eq_nil_of_length_eq_zero h))
+      · exact Or.inr h
+    have hown := allOwnRule_of_productive hprod
+    obtain ⟨R, hR, _, hg⟩ := C04_pipeline_upward A n hown hn hleaf
+    obtain ⟨h1, h2⟩ := C04_pipeline_upward_preorder A n hown hn hleaf R hR
+    exact ⟨R, hR, hg, h1, h2⟩
+
+example : (∀ q, q ∈ TaLtsEx.exA.states → q < 5) ∧ TaLts.Ranked TaLtsEx.exA ∧
+    (∀ q, Occurs TaLtsEx.exD q → UsefulState TaLtsEx.exD q) ∧ TaLtsEx.exD.states.length ≤ 2 ∧ TaLtsEx.exD.states ≠ [] :=
+  ⟨by decide, TaLts.rankedB_iff.mp (by decide), (UsefulAux.allUsefulB_iff _).mp (by decide), by decide, by decide⟩
+
+theorem ranked_reindex (f : Nat → Nat) (A : TA) (h : TaLts.Ranked A) : TaLts.Ranked (reindex f A) := by
+  intro ρ σ hρ hσ e
+  obtain ⟨ρ₀, h₁, rfl⟩ := List.mem_map.mp hρ
+  obtain ⟨σ₀, h₂, rfl⟩ := List.mem_map.mp hσ
+  simp only [mapRule, List.length_map] at e ⊢
+  exact h ρ₀ σ₀ h₁ h₂ e
+
+/-- **"… and do not depend on how the states happen to be numbered"**, for the composition: rename the states of `A` by any
+map `f` that is injective on them and pass any sufficient `n'`; the relation returned for the renamed automaton relates
+`f q` to `f r` exactly when the relation returned for `A` relates `q` to `r` -/
+theorem C04_pipeline_numbering_independent (A : TA) (f : Nat → Nat) (hf : InjOnStates f A) (n n' : Nat)
+    (hn : A.states.length ≤ n) (hn' : A.states.length ≤ n') (hrk : TaLts.Ranked A) :
+    ∃ R R', computeSimDown A n = some R ∧ computeSimDown (reindex f A) n' = some R' ∧
+      ∀ q r, q ∈ A.states → r ∈ A.states → ((f q, f r) ∈ R' ↔ (q, r) ∈ R) := by
+  obtain ⟨R, hR, e, _⟩ := C04_pipeline_downward A n hn hrk
+  obtain ⟨R', hR', e', _⟩ := C04_pipeline_downward (reindex f A) n'
+    (by rw [reindex_states_length f A hf]; exact hn') (ranked_reindex f A hrk)
+  exact ⟨R, R', hR, hR', fun q r hq hr => (e' _ _).trans ((downSim_equivariant f A hf hq hr).trans (e q r).symm)⟩
+
+example : InjOnStates (· + 10) TaLtsEx.exA ∧ TaLtsEx.exA.states.length ≤ 5 ∧ TaLtsEx.exA.states.length ≤ 20 :=
+  ⟨by intro q q' _ _ h; simp only at h; omega, by decide, by decide⟩
+
 /-!
 ## items of "not yet proved" closed here
 
@@ -184,7 +246,10 @@ theorem C04_pipeline_upward_needs_leaf :
   preconditions (`LtsOK`, `isPartition`, `isConsistent`, `RelTrans`) are now proved for the two callers of the engine
   inside the library.
 * The first item of `C04.lean` (independence of the numbering) gets a third form: the result of the pipeline does not depend
-  on `n` (`C04_pipeline_preorder_and_independence`) and is `downSimRef A` / `upSimRef A`, which do not mention a numbering.
+  on `n` (`C04_pipeline_preorder_and_independence`) and is `downSimRef A` / `upSimRef A`, which do not mention a numbering;
+  under a renaming of the automaton it is the renamed relation (`C04_pipeline_numbering_independent`).
+* `C04_pipeline_statement` puts the clauses of the property (numbered `0 … n-1`; without useless states; greatest; reflexive and
+  transitive) into one theorem about the composition.
 
 ## still not proved
 
